@@ -89,6 +89,9 @@ pub open spec fn is_digit(c: char) -> bool { '0' <= c && c <= '9' }
 pub broadcast axiom fn axiom_display_usize(n: &usize, r: String)
     requires #[trigger] vstd::string::to_string_from_display_ensures::<usize>(n, r),
     ensures r@ == decimal(*n as nat);
+pub broadcast axiom fn axiom_display_u128(n: &u128, r: String)
+    requires #[trigger] vstd::string::to_string_from_display_ensures::<u128>(n, r),
+    ensures r@ == decimal(*n as nat);
 pub broadcast axiom fn axiom_decimal_digits(n: nat, i: int)
     requires 0 <= i < decimal(n).len(),
     ensures is_digit(#[trigger] decimal(n)[i]);
